@@ -135,6 +135,23 @@ def ev_geo(case, rec):
             continue
         if kind == 'float':
             back_check(rec, ell, r, one, 'convert:xyz2llh', dict(co, p=p, p_over_z=p / max(abs(r[2]), 1e-300)))
+    if kind == 'float' and ell in cfg.SHIPPED and h in (0.0, 1e5) and abs(lat) in (0.0, 30.0, 45.0, 89.0):
+        # the same ellipsoid defined with its numbers in other exact forms (int / numpy-integer axis, Decimal / Fraction flattening)
+        lon = case['lons'][1]
+        stb, base = rec.call(llh2xyz, lat, lon, h, cfg.ell_obj(ell))
+        for nm, E in cfg.ell_field_forms(ell):
+            if isinstance(E, Exception):
+                rec.fail('an ellipsoid cannot be defined with %s' % nm, site='constants:Ellipsoid:field-form', observed=E, case=dict(case, lons=[lon]), coords={'form': nm})
+                continue
+            st1, r1 = rec.call(llh2xyz, lat, lon, h, E)
+            st2, r2 = rec.call(xyz2llh, base[0], base[1], base[2], E) if stb == 'ok' else ('skip', None)
+            st0, r0 = rec.call(xyz2llh, base[0], base[1], base[2], cfg.ell_obj(ell)) if stb == 'ok' else ('skip', None)
+            ok = st1 == 'ok' and stb == 'ok' and max(abs(float(u) - float(v)) for u, v in zip(r1, base)) <= 1e-6
+            ok = ok and (st2 == st0) and (st2 != 'ok' or max(abs(float(u) - float(v)) for u, v in zip(r2, r0)) <= 1e-9)
+            if not ok:
+                rec.fail('conversions differ when the same ellipsoid is defined with %s' % nm, site='constants:Ellipsoid:field-form',
+                         observed=[r1, r2], expected=[base, r0], case=dict(case, lons=[lon]), coords={'form': nm, 'ell': ell})
+        rec.outcome('ellipsoid-field-forms')
     rec.sample({'case': dict(case, lons=case['lons'][:2])})
 
 
